@@ -69,6 +69,8 @@ var vocab = []string{
 	"tar", "zip", "compress", "archive", "file", "files", "disk", "usage", "git", "commit",
 	"list", "find", "search", "docker", "copy", "move", "delete", "create", "network", "process",
 	"directory", "extract", "show", "size", "folder", "remove", "install", "package", "server", "log",
+	// equal-length siblings: they tie in fuzzy ranking for a shared misspelling
+	"archived", "archiver", "packaged", "packages",
 }
 
 var tools = []string{"tar", "zip", "git", "docker", "find", "grep", "du", "df", "ls", "cp", "mv", "rm", "qm", "npm", "curl", "kubectl"}
